@@ -36,6 +36,7 @@ func (s *Server) patchHandlerFunc(w http.ResponseWriter, r *http.Request) {
 	if publishTime == "" {
 		slog.Warn("publishTime query is required, but not provided in patch request")
 		http.Error(w, "publishTime query is required", http.StatusBadRequest)
+		return
 	}
 	old := &rec{}
 	oldQuery := removeQuery(origQuery, "nowMS")
